@@ -133,6 +133,11 @@ pub struct CfgInner {
     label: String,
     net: Net,
     alpha: Alpha,
+    /// the second query is started by the explorer at a later instant
+    staggered: bool,
+    /// per query, on the unimpaired link: send instants and failure instant relative to its start
+    /// when the query runs ALONE and unanswered on this tree, polled at poll_at
+    alone: Vec<(Vec<i64>, i64)>,
     servers: Vec<[u8; 4]>,
     /// (name, qtype)
     queries: Vec<(String, u16)>,
@@ -156,6 +161,19 @@ fn make_cfg(label: &str, n_servers: usize, queries: &[(&str, u16)], thorough: bo
 }
 
 fn make_cfg_net(label: &str, n_servers: usize, queries: &[(&str, u16)], alpha: Alpha, net: Net) -> DnsCfg {
+    make_cfg_full(label, n_servers, queries, alpha, net, false)
+}
+
+/// Reference for the per-query schedule clause: the same query run alone (no answers), RunOut.
+fn run_alone(n_servers: usize, q: (&str, u16)) -> (Vec<i64>, i64) {
+    let c = make_cfg_full("alone", n_servers, &[q], Alpha::Mini, Net::Ip, false);
+    let mut h = DnsH::new(&c);
+    let mut v = vec![];
+    h.apply(&Ev::RunOut, &mut v);
+    (h.qs[0].txlog.iter().map(|x| x.0).collect(), h.now)
+}
+
+fn make_cfg_full(label: &str, n_servers: usize, queries: &[(&str, u16)], alpha: Alpha, net: Net, staggered: bool) -> DnsCfg {
     let thorough = alpha == Alpha::Full;
     let servers: Vec<[u8; 4]> = (0..n_servers)
         .map(|i| if matches!(net, Net::EthGateway(_)) { [192, 0, 2, 53 + i as u8] } else { [10, 0, 0, 53 + i as u8] })
@@ -181,6 +199,8 @@ fn make_cfg_net(label: &str, n_servers: usize, queries: &[(&str, u16)], alpha: A
         label: label.to_string(),
         net,
         alpha,
+        staggered,
+        alone: if net == Net::Ip && queries.len() > 1 { queries.iter().map(|q| run_alone(n_servers, *q)).collect() } else { vec![] },
         servers,
         queries: queries.iter().map(|(n, t)| (n.to_string(), *t)).collect(),
         names,
@@ -198,9 +218,10 @@ fn make_cfg_net(label: &str, n_servers: usize, queries: &[(&str, u16)], alpha: A
         }
     }
     inner.dbg = Arc::from(format!(
-        "DnsCfg {{ label: {:?}, net: {:?}, servers: {}, queries: {:?}, alphabet: {:?}, thorough: {}, limits(srv,res,name): ({},{},{}) }}",
+        "DnsCfg {{ label: {:?}, net: {:?}, staggered: {}, servers: {}, queries: {:?}, alphabet: {:?}, thorough: {}, limits(srv,res,name): ({},{},{}) }}",
         inner.label,
         inner.net,
+        inner.staggered,
         inner.servers.len(),
         inner.queries,
         inner.alphabet.iter().map(|a| a.len()).collect::<Vec<_>>(),
@@ -409,7 +430,16 @@ fn configs(tier: Tier) -> Vec<(DnsCfg, usize)> {
         v.push((make_cfg_net("eth-gw-arp-never/mini", ns, &[a], Alpha::Mini, Net::EthGateway(None)), 14));
         v.push((make_cfg_net("eth-onlink-arp-after-3s/mini", ns, &[a], Alpha::Mini, Net::EthOnLink(Some(3))), 14));
         v.push((make_cfg_net("bp-later-ip-1q-A/mini", ns, &[a], Alpha::Mini, Net::IpBackPressureLater), 8));
+        v.push((make_cfg_full("2q-staggered-A+A/mini", ns, &[a, ("de.c", T_A)], Alpha::Mini, Net::Ip, true), 8));
+        if ns > 1 {
+            v.push((make_cfg_full("2q-staggered-A+A-1srv/mini", 1, &[a, ("de.c", T_A)], Alpha::Mini, Net::Ip, true), 8));
+        }
     } else {
+        v.push((make_cfg_full("2q-staggered-A+A/mini", ns, &[a, ("de.c", T_A)], Alpha::Mini, Net::Ip, true), 48));
+        v.push((make_cfg_full("2q-staggered-A+A/reduced", ns, &[a, ("de.c", T_A)], Alpha::Reduced, Net::Ip, true), 6));
+        if ns > 1 {
+            v.push((make_cfg_full("2q-staggered-A+A-1srv/mini", 1, &[a, ("de.c", T_A)], Alpha::Mini, Net::Ip, true), 48));
+        }
         // impaired links: to the fixpoint (every tick is 1 s while ARP is outstanding / the device
         // refuses, so the reachable space is as deep as the 11 s / 22 s until failure)
         v.push((make_cfg_net("bp-ip-1q-A/mini", ns, &[a], Alpha::Mini, Net::IpBackPressure), 48));
@@ -455,10 +485,15 @@ pub enum Ev {
     /// (back-pressure) the device accepts frames again / refuses them again
     Unblock,
     Block,
+    /// (staggered configurations) the application starts the second query now (false) or half a
+    /// second from now (true), then polls
+    StartQuery2(bool),
 }
 
 #[derive(Clone, Debug, PartialEq, Eq)]
 enum Status {
+    /// (staggered configurations) start_query not called yet
+    NotStarted,
     Pending,
     Ok(Vec<String>),
     Failed,
@@ -467,7 +502,7 @@ enum Status {
 struct QModel {
     orig: Name,
     qtype: u16,
-    handle: QueryHandle,
+    handle: Option<QueryHandle>,
     status: Status,
     started: i64,
     deadline: i64,
@@ -536,7 +571,7 @@ const CLASS_NAMES: [&str; 8] = [
     "response_completed_a_query",
     "response_failed_a_query",
     "panic_or_watchdog",
-    "link_event(arp_reply/unblock/block)",
+    "link_or_application_event(arp_reply/unblock/block/start_query)",
 ];
 
 struct Shards<V> {
@@ -778,6 +813,7 @@ impl DnsH {
                 }
             },
         };
+        let cfg = self.cfg.clone();
         let mdns = self.ci().mdns;
         let expected_dport = if mdns { 5353 } else { 53 };
         if dport != expected_dport {
@@ -838,6 +874,27 @@ impl DnsH {
         }
         m.last_tx = ts;
         m.txlog.push((ts, format!("{}:{}", dst.iter().map(|b| b.to_string()).collect::<Vec<_>>().join("."), dport)));
+        // Per-query schedule, counted from the query's OWN start (unimpaired link, several queries):
+        // no datagram leaves later than the same datagram of the same query run alone on this
+        // tree (earlier is allowed: polls caused by another query's timers may notice a server's
+        // time-out sooner). A query must not be starved by another query's timer.
+        if viol.is_none() {
+            if let Some((ref_tx, _)) = cfg.0.alone.get(k) {
+                let i = m.txlog.len() - 1;
+                let rel = ts - m.started;
+                if let Some(&r) = ref_tx.get(i) {
+                    if rel > r {
+                        viol = Some((
+                            "timing/query-schedule-later-than-when-run-alone",
+                            format!(
+                                "query {} (started at {} us): datagram #{} leaves {} us after the query's start; the same query run alone sends it after {} us (alone: {:?}; this run, absolute: {:?})",
+                                k, m.started, i + 1, rel, r, ref_tx, m.txlog
+                            ),
+                        ));
+                    }
+                }
+            }
+        }
         if let Some((s, d)) = viol {
             self.fail(out, s, d);
         }
@@ -940,7 +997,7 @@ impl DnsH {
             if self.qs[k].status != Status::Pending {
                 continue;
             }
-            let handle = self.qs[k].handle;
+            let Some(handle) = self.qs[k].handle else { continue };
             let sock = self.sockets.get_mut::<dns::Socket>(self.h);
             let r = match catch_unwind(AssertUnwindSafe(|| sock.get_query_result(handle))) {
                 Ok(r) => r,
@@ -985,6 +1042,16 @@ impl DnsH {
                         }
                         if let Some((sg, d)) = Self::schedule_short(&self.qs[k], k, "the query was failed by time-out") {
                             self.fail(out, sg, d);
+                        }
+                        if let Some((ref_tx, ref_fail)) = self.cfg.0.alone.get(k).cloned() {
+                            let rel = self.now - self.qs[k].started;
+                            if rel > ref_fail {
+                                let d = format!(
+                                    "query {} (started at {} us) is failed by time-out {} us after its start; run alone it fails after {} us (alone it sends at {:?}; this run, absolute: {:?})",
+                                    k, self.qs[k].started, rel, ref_fail, ref_tx, self.qs[k].txlog
+                                );
+                                self.fail(out, "timing/query-schedule-later-than-when-run-alone", d);
+                            }
                         }
                     }
                     if let (Some(Err(cause)), Some(m)) = (&matched, msg) {
@@ -1130,6 +1197,7 @@ impl DnsH {
             .map(|q| match &q.status {
                 Status::Ok(_) => "completed".to_string(),
                 Status::Failed => "failed".to_string(),
+                Status::NotStarted => "not-started".to_string(),
                 Status::Pending => {
                     // evidence only: is the socket's current question name still the original?
                     let orig = format!("name: {:?}", flat(&q.orig));
@@ -1207,23 +1275,27 @@ impl Harness for DnsH {
         let h = sockets.add(sock);
         let mut qs = vec![];
         for (i, (name, t)) in ci.queries.iter().enumerate() {
-            let handle = sockets
-                .get_mut::<dns::Socket>(h)
-                .start_query(iface.context(), name, qtype_of(*t))
-                .expect("start_query");
+            let later = ci.staggered && i > 0;
+            let handle = if later {
+                None
+            } else {
+                Some(sockets.get_mut::<dns::Socket>(h).start_query(iface.context(), name, qtype_of(*t)).expect("start_query"))
+            };
             // mDNS queries go to the IPv6 group, then the IPv4 group (dns.rs dispatch): 2 "servers"
             let n_srv = if name.ends_with(".local") { 2 } else { ci.servers.len() } as i64;
             qs.push(QModel {
                 orig: ci.names[i].q.clone(),
                 qtype: *t,
                 handle,
-                status: Status::Pending,
+                status: if later { Status::NotStarted } else { Status::Pending },
                 started: 0,
                 // Impaired links (unchanged-tree behaviour): `dispatch` returns at the first query whose
                 // emit fails, so while nothing gets out a later query's per-server window is only
                 // armed once the queries before it have failed (1 server, 2 queries, ARP never
                 // answered: Failed at 11 s and 22 s). The bound therefore scales with the number of
                 // concurrent queries there.
+                // (a query started later gets `started` added when it is started: the bound counts from
+                // the query's own start)
                 deadline: (if ci.net == Net::Ip { 1 } else { ci.queries.len() as i64 }) * n_srv * (PER_SERVER_S + MAX_BACKOFF_S) * SEC + SLACK_S * SEC,
                 port: 0,
                 wire: vec![],
@@ -1276,14 +1348,24 @@ impl Harness for DnsH {
     }
 
     fn enabled(&self) -> Vec<(Ev, u32)> {
-        if self.dead || !self.any_pending() {
+        let unstarted = self.qs.iter().any(|q| q.status == Status::NotStarted);
+        if self.dead || !(self.any_pending() || unstarted) {
             return vec![];
         }
         let mut v = Vec::with_capacity(600);
-        if self.next_poll.is_some() {
-            v.push((Ev::Tick, 0));
+        if self.any_pending() {
+            if self.next_poll.is_some() {
+                v.push((Ev::Tick, 0));
+            }
+            v.push((Ev::RunOut, 1));
         }
-        v.push((Ev::RunOut, 1));
+        if unstarted {
+            v.push((Ev::StartQuery2(false), 1));
+            // half a second later, provided no poll is due before (time only passes up to poll_at)
+            if self.next_poll.map_or(true, |p| self.now + SEC / 2 < p) {
+                v.push((Ev::StartQuery2(true), 1));
+            }
+        }
         match self.ci().net {
             Net::IpBackPressure | Net::IpBackPressureLater => {
                 if self.blocked {
@@ -1364,6 +1446,29 @@ impl Harness for DnsH {
                 }
                 C_LINK
             }
+            Ev::StartQuery2(late) => {
+                if *late {
+                    self.now += SEC / 2;
+                }
+                if let Some(k) = self.qs.iter().position(|q| q.status == Status::NotStarted) {
+                    let (name, t) = self.ci().queries[k].clone();
+                    let r = self.sockets.get_mut::<dns::Socket>(self.h).start_query(self.iface.context(), &name, qtype_of(t));
+                    match r {
+                        Ok(hd) => {
+                            self.qs[k].handle = Some(hd);
+                            self.qs[k].status = Status::Pending;
+                            self.qs[k].started = self.now;
+                            self.qs[k].deadline += self.now;
+                        }
+                        Err(e) => globals().mach.lock().unwrap().push(format!("start_query failed: {:?}", e)),
+                    }
+                    // the application polls after the API call (the usual smoltcp loop)
+                    if self.settle(out, "poll after start_query").is_some() {
+                        self.check_results(None, out);
+                    }
+                }
+                C_LINK
+            }
             Ev::Unblock | Ev::Block => {
                 self.blocked = *ev == Ev::Block;
                 self.was_blocked |= self.blocked;
@@ -1412,8 +1517,8 @@ impl Harness for DnsH {
             use std::fmt::Write;
             let _ = write!(
                 model,
-                "[{:?} port={} wire={:?} edges={:?} dst={:?} first={} last={} gap={} sched={:?}]",
-                q.status, q.port, q.wire, q.edges, q.cur_dst, q.cur_dst_first, q.last_tx, q.last_gap, q.sched
+                "[{:?} started={} port={} wire={:?} edges={:?} dst={:?} first={} last={} gap={} sched={:?}]",
+                q.status, q.started, q.port, q.wire, q.edges, q.cur_dst, q.cur_dst_first, q.last_tx, q.last_gap, q.sched
             );
         }
         {
@@ -1441,6 +1546,7 @@ fn describe_event(h: &DnsH, ev: &Ev) -> String {
         Ev::ArpReply(ip) => format!("ArpReply {} is-at {}", ipstr(ip), hex(&mac_of(*ip))),
         Ev::Unblock => "Unblock (device accepts frames again)".into(),
         Ev::Block => "Block (device refuses transmit)".into(),
+        Ev::StartQuery2(late) => format!("StartQuery2 at t={} us, then poll", h.now + if *late { SEC / 2 } else { 0 }),
         Ev::Resp(k, s) => {
             let m = h.build(*k as usize, s);
             format!(
